@@ -3,7 +3,7 @@
    abstraction of the implementation's disk against the AM state. *)
 From stdpp Require Import gmap list.
 From Coq Require Import NArith ZArith Lia.
-From V Require Import Model.Lib Model.Afs Model.Abs Model.Layout.
+From V Require Import Gen.GenConsts Model.Lib Model.Afs Model.Abs Model.Layout.
 Open Scope N_scope.
 
 Record oattrs := { oa_ftype : N; oa_size : N; oa_fileid : N; oa_atime : N * N; oa_mtime : N * N;
@@ -140,6 +140,13 @@ Definition needs_inode (c : call) : bool :=
 Definition nospace_plausible (wtmax : N) (c : call) (free_blocks free_inodes : N) : bool :=
   (* ([wtmax] is unused since SYMLINK refuses oversize targets before allocating; kept for the driver's interface) *)
   (free_blocks <? need_blocks c) || (needs_inode c && (free_inodes =? 0)).
+
+(* the limits a server announces (PATHCONF name_max, FSINFO maxfilesize) against the constants of the code:
+   names up to the announced length must fit a directory slot, and every byte below the announced maximum file
+   size must be addressable by the index tree (direct + indirect + double-indirect blocks) *)
+Definition limits_plausible (name_max maxfilesize : N) : bool :=
+  (name_max =? GenConsts.go_dir_MAXNAMELEN) &&
+  (maxfilesize <=? (GenConsts.go_inode_NDIRECT + GenConsts.go_inode_NBLKBLK + GenConsts.go_inode_NBLKBLK * GenConsts.go_inode_NBLKBLK) * GenConsts.go_disk_BlockSize).
 
 (* ---------- R-cache: what the server holds in memory agrees with its logical disk ---------- *)
 (* a cached inode = the 128 bytes of its disk inode *)
